@@ -5,6 +5,7 @@
   Clause checklist at the end.
 -/
 import Qfx.Lemmas.CodecScan
+import Qfx.Lemmas.CodecOps
 open Qfx Qfx.Spec
 
 /-- "tag order list vs tag lookup map: two views of the same field set that must stay in step" —
@@ -285,6 +286,25 @@ theorem C10_orig_set_over_group_keeps_members :
       = .ok ⟨{ tags := [453], lookup := [(453, .owned [{ tag := 453, value := [48], bytes := [] }, TagValue.zero])], ord := .normal }, none⟩ := by
   rfl
 
+/-- "whatever API calls produced them": EVERY sequence of API calls on a fresh message (setters in any section incl. the special
+    tags anywhere, SetGroup with any template and entries — nested groups included —, Remove, Clear, CopyInto, build) succeeds — no call
+    returns an error, none faults (codec part of C09): the hypothesis `runMOps ops Message.new = .ok m` of the theorems above is
+    always met. -/
+theorem C10_api_total (ops : List MOp) : ∃ m, runMOps ops Message.new = .ok m := by
+  obtain ⟨m, h, _⟩ := runMOps_total ops Message.new MOK.new
+  exact ⟨m, h⟩
+
+/-- the same on any message the (fixed) parser returns, whatever bytes and dictionaries it was parsed from: setters over parsed
+    fields (which write through into `Message.fields`), SetGroup, Remove, Clear, CopyInto and rebuilding never fail and never fault. -/
+theorem C10_api_total_parsed (d : Dicts) (w : Bytes) (p : Message) (hp : parseMessage Fixes.cur d w = .ok p) (ops : List MOp) :
+    ∃ m, runMOps ops p = .ok m := by
+  obtain ⟨m, h, _⟩ := runMOps_total ops p (parse_MOK d w p hp)
+  exact ⟨m, h⟩
+
+/-- `RepeatingGroup.Write` always succeeds and starts with the count field -/
+theorem C10_write_total (t : Tag) (tmpl : List Item) (es : List (List GFld)) :
+    ∃ tvs, writeGroup t tmpl es = .ok (countTV t es.length :: tvs) := writeGroup_total t tmpl es
+
 /-! ## not (yet) theorems: kept as full statements, checked on every run by the monitor (Qfx.Spec.monBuild) and the correspondence -/
 
 /-- the whole monitor (scanner-level clauses RELATIVE TO THE ABSTRACT MESSAGE `a` that the operations describe: each set
@@ -313,4 +333,5 @@ example : ∃ m, runFOps [.set (TagValue.init 58 [97]), .remove 58, .set (TagVal
    "a copied message serialises identically to its source"         C10_copy_identical (message level), C10_copy_writes_same,
                                                                    C10_copy_length_total_same (section level, also parsed sources)
    scanner-level well-formedness of the whole output               C10_build_scans_wf (wireWF, scan = written fields); relative to Abs: C10_build_wf_full
-   op-order independence ("whatever API calls produced them")      C10_write_history_independent -/
+   op-order independence ("whatever API calls produced them")      C10_write_history_independent
+   every API call sequence succeeds (no error, no fault)           C10_api_total, C10_api_total_parsed, C10_write_total -/
